@@ -45,6 +45,7 @@ type runner struct {
 	nPub     int
 	nStored  int
 	hasClean bool
+	nSettle  int
 	// digests of every VAA actually broadcast (observed behaviour, not the model)
 	actualPublished map[string]bool
 }
@@ -148,6 +149,8 @@ func (r *runner) publishedDigests() []string {
 	return out
 }
 
+var queueFiller = &gossipv1.SignedObservation{Hash: []byte{0xfe}, Signature: []byte{0xfe}, Addr: []byte{0xfe}}
+
 func runProcR(c procCase, o oracles, reqCap int) (*runner, *vh.Violation, vh.Outcome) {
 	e := newEnv(c, reqCap)
 	defer e.wipe()
@@ -209,13 +212,31 @@ func (r *runner) step(i int, x op) *vh.Violation {
 			return nil
 		}
 		effective := false
+		busyGot := 0
 		var govBefore map[string]aggEntry
 		if x.K == "observe" {
 			effective = r.observeEffective(m)
 			if m.gov {
 				govBefore = e.aggSnapshot()
 			}
+			busy := x.D == 1 && len(e.obsvC) == 0
+			if busy {
+				// the inbound observation queue is full (a burst of gossip) at the moment the node observes the message; the
+				// run loop then works the queue off. The node's own observation must still get in.
+				for len(e.obsvC) < cap(e.obsvC) {
+					e.obsvC <- queueFiller
+				}
+				r.label("observed-with-full-inbound-queue")
+			}
 			e.p.handleMessage(e.ctx, m.pub)
+			if busy {
+				for n := cap(e.obsvC); n > 0; n-- {
+					if o := <-e.obsvC; o != queueFiller {
+						e.pending = append(e.pending, o)
+						busyGot++
+					}
+				}
+			}
 		} else {
 			if e.cur == nil && !r.o.adv {
 				// injection before the first guardian set is exercised by C13 only
@@ -240,7 +261,13 @@ func (r *runner) step(i int, x op) *vh.Violation {
 		if len(so.vaas) > 0 || len(so.changed) > 0 {
 			return vh.V(r.o.pfx+"/publish-at-observe-step", "%s produced %d VAA broadcasts and %d store changes; publication happens only when an observation is delivered", x.K, len(so.vaas), len(so.changed))
 		}
-		if !e.takeLoopbacks(len(so.obs)) {
+		if busyGot > len(so.obs) {
+			busyGot = len(so.obs)
+		}
+		if !e.takeLoopbacks(len(so.obs) - busyGot) {
+			if x.K == "observe" && x.D == 1 {
+				return vh.V("C02/own-observation-lost-under-queue-pressure", "the inbound observation queue was full when the node observed the message; after the queue had been worked off the node's own observation never entered it")
+			}
 			return vh.V("harness/loopback-missing", "own-signature loopback did not arrive")
 		}
 		if m.gov && x.K == "observe" {
@@ -554,6 +581,27 @@ func (r *runner) step(i int, x op) *vh.Violation {
 		if had != nil && len(so.changed) == 0 {
 			r.label("inbound-for-stored-id")
 		}
+		return nil
+
+	case "settle": // 31 s pass and a cleanup tick runs: entries become "settled", nothing else is due yet
+		if r.nSettle >= 3 || e.cur == nil {
+			return nil
+		}
+		r.nSettle++
+		before := len(e.p.state.vaaSignatures)
+		e.shiftTimes(31*time.Second + 500*time.Millisecond)
+		e.p.handleCleanup(e.ctx)
+		so, v := e.drain()
+		if v != nil {
+			return v
+		}
+		if len(so.vaas) != 0 || len(so.changed) != 0 {
+			return vh.V(r.o.pfx+"/cleanup-published", "a cleanup tick published or stored a VAA")
+		}
+		if len(e.p.state.vaaSignatures) != before || len(so.obs) != 0 {
+			r.hasClean = true // an entry was expired (its VAA is stored) or retried: the step-by-step model ends here
+		}
+		r.label("settled-mid-aggregation")
 		return nil
 
 	case "cleanup":
